@@ -1,9 +1,10 @@
-use crate::co_pool::CoroutinePool;
+use crate::co_pool::{CoroutinePool, COUNTED_IN};
 use crate::common::constants::CoroutineState;
 use crate::coroutine::listener::Listener;
 use crate::coroutine::local::CoroutineLocal;
 use crate::scheduler::SchedulableCoroutineState;
-use std::sync::atomic::Ordering;
+use std::sync::atomic::{AtomicUsize, Ordering};
+use std::sync::Arc;
 
 #[repr(C)]
 #[derive(Debug, Default)]
@@ -12,11 +13,29 @@ pub(crate) struct CoroutineCreator {}
 impl Listener<(), Option<usize>> for CoroutineCreator {
     fn on_state_changed(
         &self,
-        _: &CoroutineLocal,
+        local: &CoroutineLocal,
         _: SchedulableCoroutineState,
         new_state: SchedulableCoroutineState,
     ) {
         match new_state {
+            CoroutineState::Running => {
+                // A pool coroutine may be resumed by the scheduler of another pool, at the top
+                // of its loop or in the middle of a task. From then on it belongs to the pool
+                // that runs it; whatever it does next (exit, panic, cancel) is accounted there.
+                if let Some(pool) = CoroutinePool::current() {
+                    if let Some(counted_in) = local.get::<Arc<AtomicUsize>>(COUNTED_IN) {
+                        if !Arc::ptr_eq(counted_in, &pool.running) {
+                            _ = counted_in.fetch_update(
+                                Ordering::AcqRel,
+                                Ordering::Acquire,
+                                |n| Some(n.saturating_sub(1)),
+                            );
+                            _ = pool.running.fetch_add(1, Ordering::Release);
+                            drop(local.put(COUNTED_IN, pool.running.clone()));
+                        }
+                    }
+                }
+            }
             CoroutineState::Suspend((), _) | CoroutineState::Syscall((), _, _) => {
                 if let Some(pool) = CoroutinePool::current() {
                     _ = pool.try_grow();
